@@ -84,6 +84,10 @@ Types == << Struct(<<Field(A_, Prim("string")), Field(Id, Prim("int")), Field(AE
             Struct(<<EmbeddedUntagged(Ptr(Struct(<<Field(A_, Prim("string"))>>))), Field(A_, Prim("string"))>>),
             Struct(<<Embedded(Cc, Ptr(Struct(<<Field(D_, Prim("int")), Field(CountA, Prim("int"))>>))), Field(CountA, Prim("int"))>>),
             Slice(Struct(<<Embedded(Rel(<<Step("child", T_any)>>), Struct(<<Field(Rel(<<Self>>), Prim("string"))>>)), Field(Rel(<<Self>>), Prim("string"))>>)),
+            \* a recursive declared type: the whole element tree under r as nested Dir values (and as a slice of them)
+            DirT, Slice(DirT), Ptr(DirT),
+            \* a bare name tag is child::name in NO namespace: c has a child p:n and no child n
+            Struct(<<Field(Cc, Struct(<<Field(C(<<"n">>), Prim("string")), Field(D_, Slice(Prim("int"))), Field(C(<<"n">>), Slice(Prim("string"))), Field(PN, Prim("int"))>>))>>),
             \* two declared types of the same name with different tags, used one after the other in one process
             Declared("Item", <<Field(A_, Prim("string")), Untagged(Prim("string"))>>), Declared("Item", <<Field(B_, Prim("string")), Untagged(Prim("string"))>>),
             Slice(Declared("Item", <<Field(B_, Prim("string")), Untagged(Prim("string"))>>)), Slice(Declared("Item", <<Field(A_, Prim("string")), Untagged(Prim("string"))>>)),
